@@ -35,6 +35,7 @@ func init() {
 	gens["Src_ratestore.v"] = genGoLiteRateStore
 	gens["Src_servehttp.v"] = genGoLiteServeHTTP
 	gens["Src_addtarget.v"] = genGoLoopAddTarget
+	gens["Src_decompress.v"] = genGoLiteDecompress
 }
 
 // innerHandler finds the innermost function literal of shape func(c echo.Context) error inside fd.
@@ -1427,4 +1428,15 @@ func genGoLoopAddTarget(repo string) (string, error) {
 		out += s
 	}
 	return out, nil
+}
+
+func genGoLiteDecompress(repo string) (string, error) {
+	s, err := goliteClosure(repo, "middleware/decompress.go", "DecompressWithConfig", "decompress_handler", goliteCfg{
+		ignore: map[string]bool{}, tail: map[string]bool{"next": true},
+		cells:  map[string]bool{"c.Request().Header.Get(echo.HeaderContentEncoding)": true},
+		extern: map[string]bool{"config.Skipper": true, "pool.Get": true, "gr.Reset": true}})
+	if err != nil {
+		return "", err
+	}
+	return goliteHeader + "(* middleware/decompress.go: the request handler (innermost closure) of DecompressWithConfig.  The skipper, the pool, the type test\n   of what the pool returned and gzip.Reader.Reset are external (input stream); the deferred calls, the replacement of the request\n   body and next are events; the Content-Encoding header is a cell. *)\n" + s, nil
 }
